@@ -135,6 +135,7 @@ def check(run):
                 run.case((backend, 'random', k, run.seed), nontrivial=True)
                 judge_random(run, backend, scripts, decisions, events, results, other, drv)
         long_hold_family(run, scratch)
+        expired_keepalive_family(run, scratch)
         run.exhaustive = False
         if drv is not None and run.corr_disagreements == 0:
             run.obligation('correspondence: %d schedules on the real lock classes give exactly the results of the model interpreting the extracted trees' % run.corr_programs, True)
@@ -186,6 +187,34 @@ def long_hold_family(run, scratch):
                     run.fail('not-reacquirable', '%s lock released by its holder after a long hold cannot be acquired' % backend, {'kind': 'long-hold', 'backend': backend, 'failed': failed})
             finally:
                 w.close()
+
+
+def expired_keepalive_family(run, scratch):
+    """keep-alive backend: the lock of a worker whose helper stopped refreshing it (time stamp older than the expiry, not the explicit
+    failed mark) is reported locked and failed - and, like every failed lock, cannot be acquired until it is released / cleaned up"""
+    import os as _os
+    import time as _time
+    for age in (1801, 7200, 10 ** 6):
+        w = lockrun.World('keepalive', 3, scratch, lambda *a: None)
+        try:
+            A, B, C = w.locks
+            if not A.get():
+                continue
+            now = _time.time()
+            _os.utime(w.lockpath, (now - age, now - age))
+            obs = {'B.is_locked': B.is_locked(), 'B.is_failed': B.is_failed(), 'B.get': B.get(), 'C.get': C.get(), 'still B.is_locked': B.is_locked()}
+            exp = {'B.is_locked': True, 'B.is_failed': True, 'B.get': False, 'C.get': False, 'still B.is_locked': True}
+            run.case(('keepalive', 'expired', age), nontrivial=True)
+            run.count('expired_keepalive_points')
+            if obs != exp:
+                run.fail('expired-lock-acquired', 'keep-alive lock held by client A, not refreshed for %d s (reported locked and failed) and not released: other clients observe %s, expected %s '
+                         '(a failed lock cannot be acquired until it is released)' % (age, obs, exp), {'kind': 'expired-keepalive', 'age': age})
+                continue
+            A.release()
+            if not C.get():
+                run.fail('not-reacquirable', 'keep-alive lock released by its holder cannot be acquired', {'kind': 'expired-keepalive', 'age': age})
+        finally:
+            w.close()
 
 
 def judge_random(run, backend, scripts, decisions, events, results, other, drv):
